@@ -43,7 +43,9 @@ fn main() {
         ("segtree", "record") => segtree::record(seed, &tier, &out),
         ("treap", "replay") => treap::replay(&args[3], &out),
         ("treap", "record") => treap::record(seed, &tier, &out),
-        ("treap", "record-solo") => treap::record_solo(arg_value(&args, "--n").unwrap().parse().unwrap(), &out),
+        ("treap", "record-solo") => treap::record_solo(arg_value(&args, "--n").unwrap().parse().unwrap(),
+                                                       arg_value(&args, "--streams").map(|s| s.parse().unwrap()).unwrap_or(1),
+                                                       arg_value(&args, "--per").map(|s| s.parse().unwrap()).unwrap_or(0), &out),
         ("treap", "record-race") => treap::record_race(seed, arg_value(&args, "--threads").unwrap().parse().unwrap(),
                                                        arg_value(&args, "--draws").unwrap().parse().unwrap(), &out),
         ("treap", "probe") => treap::probe(args[3].parse().unwrap(), args[4].parse().unwrap()),
